@@ -111,6 +111,8 @@ func EvalFlow(prog int, f *FlowP, pl *FlowPlan) *FlowModel {
 				for k := range outs {
 					outs[k] = OutVal(prog, t.ID, k, args)
 				}
+			case Goexit:
+				failed = true // the worker dies; FallbackWith does not apply
 			default:
 				if t.Fallback {
 					fallback()
